@@ -237,7 +237,30 @@ def gen_cases(rng, tier):
         if rng.random() < 0.6:
             a = mutate(rng, a)
         cases.append({"kind": "e2e", "ref": p, "arg": a})
+    n_ref = 120 if tier == "quick" else 3000
+    for i in range(n_ref):
+        cases.append(g_ref_case(rng))
     return cases
+
+
+def g_ref_case(rng):
+    """Instance-specific references: `match $ref.Finished(...)` must only match events of that instance."""
+    if rng.random() < 0.5:
+        n = rng.choice([2, 2, 3])
+        k = rng.randrange(n)
+        scripts = [rng.choice(["one", "two", "one"]) for _ in range(n)]
+        params = rng.choice([[], [], [["final_script", "x"]], [["final_script", "x"], ["is_success", True]]])
+        events = []
+        for _ in range(rng.choice([1, 2, 3])):
+            tgt = rng.choice(list(range(n)) + ["unknown", "none"])
+            ev_params = dict(rng.choice([[], [["final_script", "x"]], [["final_script", "y"]], [["final_script", "x"], ["is_success", True], ["extra", 1]]]))
+            events.append({"target": tgt, "params": ev_params})
+        return {"kind": "e2e_ref", "sub": "action", "n": n, "k": k, "scripts": scripts, "params": params, "events": events}
+    n = rng.choice([2, 2, 3])
+    k = rng.randrange(n)
+    order = list(range(n))
+    rng.shuffle(order)
+    return {"kind": "e2e_ref", "sub": "flow", "n": n, "k": k, "event_kind": rng.choice(["Finished", "Finished", "Started"]), "events": [{"target": j} for j in order[: rng.choice([1, 2, n])]]}
 
 
 def renderable(p):
@@ -345,7 +368,57 @@ def run_impl(case):
         return obs
     if case["kind"] == "e2e":
         return run_e2e(case)
+    if case["kind"] == "e2e_ref":
+        return run_e2e_ref(case)
     raise ValueError(case["kind"])
+
+
+def run_e2e_ref(case):
+    sm = _SM
+    from nemoguardrails.colang import parse_colang_file
+    from nemoguardrails.colang.v2_x.runtime.flows import InternalEvent, State
+    from nemoguardrails.colang.v2_x.runtime.runtime import create_flow_configs_from_flow_list
+
+    n, k = case["n"], case["k"]
+    if case["sub"] == "action":
+        lines = ["flow main"]
+        for i in range(n):
+            lines.append(f'  start UtteranceBotAction(script="{case["scripts"][i]}") as $a{i}')
+        args = ", ".join(f"{kk}={render(vj.enc(v))}" for kk, v in case["params"])
+        lines += [f"  match $a{k}.Finished({args})", "  send Hit()", "  match Never()"]
+    else:
+        lines = ["flow child $x", "  match Done(id=$x)", "flow main"]
+        for i in range(n):
+            lines.append(f"  start child(x={i}) as $r{i}")
+        lines += [f"  match $r{k}.{case['event_kind']}()", "  send Hit()", "  match Never()"]
+    src = "\n".join(lines) + "\n"
+    obs = {"src": src, "hits": []}
+    try:
+        with contextlib.redirect_stdout(io.StringIO()):
+            cfg = create_flow_configs_from_flow_list(parse_colang_file(filename="", content=src, include_source_mapping=False, version="2.x")["flows"])
+            st = State(flow_states=[], flow_configs=cfg)
+            sm.initialize_state(st)
+            sm.run_to_completion(st, InternalEvent(name="StartFlow", arguments={"flow_id": "main"}))
+        if case["sub"] == "action":
+            uids = [e["action_uid"] for e in st.outgoing_events if e.get("type") == "StartUtteranceBotAction"]
+            obs["n_started"] = len(uids)
+        obs["hit_at_start"] = any(e.get("type") == "Hit" for e in st.outgoing_events)
+        for ev in case["events"]:
+            st.outgoing_events.clear()
+            if case["sub"] == "action":
+                d = {"type": "UtteranceBotActionFinished", **ev["params"]}
+                if ev["target"] == "unknown":
+                    d["action_uid"] = "no-such-action"
+                elif ev["target"] != "none":
+                    d["action_uid"] = uids[ev["target"]]
+            else:
+                d = {"type": "Done", "id": ev["target"]}
+            with contextlib.redirect_stdout(io.StringIO()):
+                sm.run_to_completion(st, d)
+            obs["hits"].append(any(e.get("type") == "Hit" for e in st.outgoing_events))
+    except Exception as e:  # noqa
+        obs["exc"] = type(e).__name__ + ": " + str(e)[:100]
+    return obs
 
 
 def run_e2e(case):
@@ -385,6 +458,8 @@ def run_e2e(case):
 # ----------------------------------------------------------------------------- model
 
 def model_requests(case, obs):
+    if case["kind"] == "e2e_ref":
+        return []  # oracle only: `get_event_from_element` is not modelled yet
     if case["kind"] == "fn":
         return [{"m": "C04.score", "arg": obs["arg_seen"], "ref": obs["ref_seen"], "rx": obs["rx"]}]
     if case["kind"] == "e2e":
@@ -504,7 +579,35 @@ def has_reserved(r):
     return False
 
 
+def oracle_ref(case, obs):
+    if "exc" in obs:
+        return f"interpreter raised {obs['exc']} on an instance-reference program"
+    if case["sub"] == "flow" and case["event_kind"] == "Started":
+        # every child has started when main reaches the match: the reference's own Started event is already past
+        exp_hits = [False] * len(case["events"])
+        if obs["hit_at_start"]:
+            return "match $ref.Started() completed before any event of that instance arrived after the statement became active"
+    elif obs["hit_at_start"]:
+        return "Hit was sent before any event arrived"
+    done = False
+    for i, ev in enumerate(case["events"]):
+        if case["sub"] == "action":
+            want = dict((kk, v) for kk, v in case["params"])
+            fits = ev["target"] == case["k"] and all(kk in ev["params"] and ev["params"][kk] == v for kk, v in want.items())
+        else:
+            fits = case["event_kind"] == "Finished" and ev["target"] == case["k"]
+        exp = fits and not done
+        if exp:
+            done = True
+        if obs["hits"][i] != exp:
+            tgt = ev["target"]
+            return f"statement refers to instance #{case['k']}; event #{i} belongs to instance {tgt!r} with params {ev.get('params')}: expected advance={exp}, implementation advance={obs['hits'][i]}"
+    return None
+
+
 def oracle(case, obs):
+    if case["kind"] == "e2e_ref":
+        return oracle_ref(case, obs)
     if case["kind"] in ("fn", "e2e"):
         a, r = vj.dec(obs["arg_seen"]), vj.dec(obs["ref_seen"])
         if case["kind"] == "e2e":
@@ -554,6 +657,8 @@ def oracle(case, obs):
 
 
 def signature(case, obs, msg):
+    if case["kind"] == "e2e_ref":
+        return None
     try:
         if case["kind"] == "event":
             r = {k: vj.dec(v) for k, v in obs["ref_args_seen"]}
@@ -567,6 +672,8 @@ def signature(case, obs, msg):
 
 
 def nontrivial(case, obs):
+    if case["kind"] == "e2e_ref":
+        return True
     r = case["ref"] if case["kind"] != "event" else {"d": case["ref"]["args"]}
     s = json.dumps(r)
     structured = any(t in s for t in ('"l"', '"S"', '"d"', '"r"', '"c"'))
@@ -577,6 +684,8 @@ def nontrivial(case, obs):
 
 def tags(case, obs):
     t = ["kind:" + case["kind"]]
+    if case["kind"] == "e2e_ref":
+        return t + ["ref:" + case["sub"], "ref-hits:%d" % sum(obs.get("hits", []))]
     if case["kind"] == "fn":
         t.append("how:" + case["how"])
     if "skip" in obs:
@@ -613,6 +722,11 @@ def _sub(v):
 
 
 def shrink(case):
+    if case["kind"] == "e2e_ref":
+        for i in range(len(case["events"])):
+            if len(case["events"]) > 1:
+                yield dict(case, events=case["events"][:i] + case["events"][i + 1:])
+        return
     if case["kind"] in ("fn", "e2e"):
         for s in _sub(case["ref"]):
             if case["kind"] == "fn" or renderable(s):
